@@ -9,7 +9,7 @@ import tempfile
 
 import numpy as np
 
-from .monitors import StdMonitor
+from .monitors import StdMonitor, oracle_ll
 from .tinymodels import Guarded, KillSignal, make
 
 
@@ -32,6 +32,12 @@ def reset_globals():
         nmp._model = None
     except Exception:
         pass
+
+
+def reset_globals_keep_fields(kind):
+    """After a nested resume inside a running sampler: nothing to undo (the INS re-adds its
+    extra fields idempotently); kept as a seam."""
+    return None
 
 
 # ---------------------------------------------------------------------------------
@@ -73,6 +79,7 @@ def standard_lattice(seed, quick):
         {"kwargs": {"analytic_priors": True}, "model": "G2ramp"},
         {"model": "G2ramp"},
         {"model": "G3"},
+        {"model": "G2hole"},
         {"kwargs": {"latent_prior": "gaussian", "constant_volume_mode": False}},
         {"kwargs": {"latent_prior": "uniform_nball"}},
         {"kwargs": {"latent_prior": "flow", "constant_volume_mode": False}},
@@ -422,6 +429,8 @@ def ins_lattice(seed, quick, resume_subsets=True):
                 assigns.append({k: v})
         assigns.append({"weighted_kl": True})
         assigns.append({"model": "G3"})
+        assigns.append({"model": "G2hole"})
+        assigns.append({"model": "G2hole", "draw_iid_live": False, "strict_threshold": True})
         assigns.append({"min_remove": 5})
         assigns.append({"max_samples": 120})
     else:
@@ -516,7 +525,7 @@ class InsMonitor:
             lu = np.asarray(model.log_prior_unit_hypercube(s), dtype=float)
             if np.any(lu != s["logU"]):
                 self.err(f"{tag}:logU-differs-from-model")
-            ll = np.asarray(model.log_likelihood(model.from_unit_hypercube(s)), dtype=float)
+            ll = np.asarray(oracle_ll(model)(model.from_unit_hypercube(s)), dtype=float)
             if np.any(~((ll == s["logL"]) | (np.abs(ll - s["logL"]) <= 1e-12 * (1 + np.abs(ll))))):
                 self.err(f"{tag}:logL-differs-from-model")
             if np.any(np.diff(s["logL"]) < 0):
@@ -577,7 +586,7 @@ def check_ins_results(fs, model, errs, tol=1e-9):
         err("ins:number-of-returned-samples", f"{len(samples)} vs n_initial {ns.n_initial} + added {hist['n_added']}")
     if np.any(np.diff(samples["logL"]) < 0):
         err("ins:returned-samples-not-ascending")
-    ll = np.asarray(model.log_likelihood(samples), dtype=float)
+    ll = np.asarray(oracle_ll(model)(samples), dtype=float)
     if np.any(~((ll == samples["logL"]) | (np.abs(ll - samples["logL"]) <= 1e-12 * (1 + np.abs(ll))))):
         err("ins:stored-logL-differs-from-model")
     lp = np.asarray(model.log_prior(samples), dtype=float)
